@@ -84,6 +84,26 @@ class BoxHooks(Hooks):
         return {">": True if lo > 0 else None, ">=": True if lo >= 0 else None, "<": False if lo >= 0 else None,
                 "<=": False if lo > 0 else None, "==": False if lo > 0 else None, "!=": True if lo > 0 else None}[op]
 
+    def _decide_shifted(self, op, d: Poly):
+        """positivity certificate: write every size symbol as (its lower bound + delta), delta >= 0; if every non-constant coefficient
+        of the expanded polynomial has one sign, the constant term is a bound of d"""
+        syms = [a for a in d.atoms()]
+        if not syms or any(a[0] != "sym" or a[1] not in self.bounds for a in syms):
+            return None
+        for m in d.terms:
+            if any(e < 0 or e.denominator != 1 for _, e in m):
+                return None
+        sh = d.subs({a: Poly.atom(a) + Poly.const(self.bounds[a[1]]) for a in syms})
+        c0 = sh.terms.get((), Fraction(0))
+        rest = [c for m, c in sh.terms.items() if m != ()]
+        if all(c >= 0 for c in rest):       # d >= c0
+            return {">": True if c0 > 0 else None, ">=": True if c0 >= 0 else None, "<": False if c0 >= 0 else None,
+                    "<=": False if c0 > 0 else None, "==": False if c0 > 0 else None, "!=": True if c0 > 0 else None}[op]
+        if all(c <= 0 for c in rest):       # d <= c0
+            return {"<": True if c0 < 0 else None, "<=": True if c0 <= 0 else None, ">": False if c0 <= 0 else None,
+                    ">=": False if c0 < 0 else None, "==": False if c0 < 0 else None, "!=": True if c0 < 0 else None}[op]
+        return None
+
     def decide(self, interp, cond):
         r = self.decide_linear(cond)
         if r is not None or cond.kind != "cmp":
@@ -101,12 +121,13 @@ class BoxHooks(Hooks):
             else:
                 common = {a: min(e, dm[a]) for a, e in common.items() if a in dm}
         if not common:
-            return None
+            return self._decide_shifted(op, d)
         g = Poly.const(1)
         for a, e in common.items():
             g = g * Poly.atom(a) ** e
         q = d / g
-        return self.decide_linear(CondV("cmp", op, q, Poly.const(0)))
+        r2 = self.decide_linear(CondV("cmp", op, q, Poly.const(0)))
+        return r2 if r2 is not None else self._decide_shifted(op, d)
 
 
 class FGHooks(BoxHooks):
